@@ -30,6 +30,10 @@ try:
     chk.assumptions += depscheck.ASSUMPTIONS
     depscheck.kernel_agreement(chk, N, E, goals=True)
     orchestration.unlocked_reevaluates(chk)
+    from specs import buildjob, buildworld
+    buildworld.install(eng)
+    chk.assumptions += buildjob.ASSUMPTIONS
+    buildjob.record_new_state_facts(chk, 'C01')
     chk.finish(depscheck.make_replay(chk, rep, scn))
 finally:
     rep.cleanup()
